@@ -135,21 +135,30 @@ Definition run_mop (e : menv) (o : mop) : otree * menv :=
   | MSet p v cascade as_match =>
       match m_set_match (S (List.length p)) (SrcDoc doc) doc p v cascade None (m_nl e) with
       | (Ok m, doc', nl', es) =>
-          finish (ON "set" [if as_match then ON "result" [mref m] else ON "value" [lval (tdata m)]; oevents es])
+          finish (ON "set" [if as_match then ON "result" [mref m] else ON "value" [lval (tdata m)]; oevents es;
+                            ON "fresh" [obool (freshb doc (m_nl e) (List.length p))]])
                  doc' nl' (if as_match then m_held e ++ [m] else m_held e)
-      | (Exn x, doc', nl', es) => finish (ON "set" [ON "raise" [oexn x]; oevents es]) doc' nl' (m_held e)
+      | (Exn x, doc', nl', es) =>
+          finish (ON "set" [ON "raise" [oexn x]; oevents es; ON "fresh" [obool (freshb doc (m_nl e) (List.length p))]])
+                 doc' nl' (m_held e)
       end
   | MGetStore p d =>
       match j_get B (SrcDoc doc) p d None with
-      | (Ok (GData m), es) => finish (ON "getstore" [ON "got" [lval (tdata m)]; oevents es]) doc (m_nl e) (m_held e)
+      | (Ok (GData m), es) =>
+          finish (ON "getstore" [ON "got" [lval (tdata m)]; oevents es;
+                                 ON "fresh" [obool (freshb doc (m_nl e) (List.length p))]]) doc (m_nl e) (m_held e)
       | (Ok (GDefault v), es) =>
           match m_set_match (S (List.length p)) (SrcDoc doc) doc p v true None (m_nl e) with
           | (Ok _, doc', nl', es') =>
-              finish (ON "getstore" [ON "got" [lval v]; oevents (es ++ es')]) doc' nl' (m_held e)
+              finish (ON "getstore" [ON "got" [lval v]; oevents (es ++ es');
+                                     ON "fresh" [obool (freshb doc (m_nl e) (List.length p))]]) doc' nl' (m_held e)
           | (Exn x, doc', nl', es') =>
-              finish (ON "getstore" [ON "raise" [oexn x]; oevents (es ++ es')]) doc' nl' (m_held e)
+              finish (ON "getstore" [ON "raise" [oexn x]; oevents (es ++ es');
+                                     ON "fresh" [obool (freshb doc (m_nl e) (List.length p))]]) doc' nl' (m_held e)
           end
-      | (Exn x, es) => finish (ON "getstore" [ON "raise" [oexn x]; oevents es]) doc (m_nl e) (m_held e)
+      | (Exn x, es) =>
+          finish (ON "getstore" [ON "raise" [oexn x]; oevents es;
+                                 ON "fresh" [obool (freshb doc (m_nl e) (List.length p))]]) doc (m_nl e) (m_held e)
       end
   | MPop p d =>
       let must := match d with None => true | Some _ => false end in
